@@ -999,7 +999,7 @@ class QuicConnection:
                 )
 
             # raise expected packet number
-            if packet_number > space.expected_packet_number:
+            if packet_number >= space.expected_packet_number:
                 space.expected_packet_number = packet_number + 1
 
             # discard initial keys and packet space
